@@ -329,6 +329,12 @@ def r6(ctx, R):
         a = kw(c, "is_cached")
         if a is None or norm(a) != "is_cached":
             R.bad(nc, c, "is_cached is not forwarded to the constructor")
+    cc = ctx.func("SpaceManager.copy_cells")
+    R.inst("copy_cells: the copy takes the cached flag of its source")
+    c = [x for x in q.calls(cc, name="new_cells") if (call_recv(x) or "") == "self"]
+    if not c or norm(kw(c[0], "is_cached") or ast.Constant(None)) != "source.is_cached":
+        R.bad(cc, cc.node, "a copied cells is always cached: a copy of an uncached cells hashes its arguments "
+                           "(TypeError for unhashable ones) and holds values", stmt="is_cached=source.is_cached")
     us = ctx.func("UserSpace.new_cells")
     R.inst("UserSpace.new_cells forwards is_cached")
     c = q.calls(us, name="new_cells")
